@@ -3,6 +3,9 @@ package props
 import (
 	"bytes"
 	"fmt"
+	"io"
+
+	"github.com/ulikunitz/xz"
 
 	"verif/core"
 	"verif/ref"
@@ -17,6 +20,58 @@ type C12Case struct {
 	Trailing int   // -1 none, else trailing bytes with this value
 	TailLen  int   `json:",omitempty"` // number of trailing bytes (0 = 1); value 0x100 = first TailLen bytes of a stream header
 	Single   bool
+	// Poke = [i, j, v]: byte j of the padding after stream i is set to v (non-zero): garbage that
+	// begins with zero bytes
+	Poke []int `json:",omitempty"`
+	// Src: how the underlying source delivers the file: 0 bytes.Reader, 1 full reads with the last
+	// bytes delivered together with io.EOF, 2 one byte per Read, 3 one byte per Read and the last
+	// one together with io.EOF
+	Src int `json:",omitempty"`
+}
+
+// modeSource is a deterministic io.Reader (not an io.ByteReader) with a fixed fragmentation.
+type modeSource struct {
+	data []byte
+	pos  int
+	mode int
+}
+
+func (m *modeSource) Read(p []byte) (int, error) {
+	if len(p) == 0 {
+		return 0, nil
+	}
+	rem := len(m.data) - m.pos
+	if rem == 0 {
+		return 0, io.EOF
+	}
+	n := len(p)
+	if m.mode >= 2 {
+		n = 1
+	}
+	if n > rem {
+		n = rem
+	}
+	copy(p, m.data[m.pos:m.pos+n])
+	m.pos += n
+	if n == rem && (m.mode == 1 || m.mode == 3) {
+		return n, io.EOF
+	}
+	return n, nil
+}
+
+func xzDecodeSrc(data []byte, dictCap int, single bool, mode int) (out []byte, err error, proto string, pan *core.PanicInfo) {
+	if mode == 0 {
+		return xzDecode(data, dictCap, single)
+	}
+	pan = core.Guard(func() {
+		var rd *xz.Reader
+		rd, err = xz.ReaderConfig{DictCap: dictCap, SingleStream: single}.NewReader(&modeSource{data: data, mode: mode})
+		if err != nil {
+			return
+		}
+		out, err, proto = readAll(rd, 4096, 256<<20)
+	})
+	return
 }
 
 func init() {
@@ -52,6 +107,16 @@ func c12Menu() []Stream {
 
 // c12Expect is the reference semantics of the statement.
 func c12Expect(menu []Stream, p C12Case) (content []byte, wantErr bool) {
+	if len(p.Poke) == 3 && !p.Single && p.Lead == 0 {
+		// non-zero byte inside what would otherwise be padding: an error after the streams before it
+		for i, s := range p.Streams {
+			content = append(content, menu[s].Plain...)
+			if i == p.Poke[0] || p.Pads[i]%4 != 0 {
+				return content, true
+			}
+		}
+		return content, true
+	}
 	if p.Single {
 		content = menu[p.Streams[0]].Plain
 		wantErr = p.Lead > 0 || len(p.Streams) > 1 || p.Pads[0] > 0 || p.Trailing >= 0
@@ -80,7 +145,11 @@ func c12Case(r *core.Run, menu []Stream, p C12Case) {
 	data = append(data, make([]byte, p.Lead)...)
 	for i, s := range p.Streams {
 		data = append(data, menu[s].Data...)
-		data = append(data, make([]byte, p.Pads[i])...)
+		pad := make([]byte, p.Pads[i])
+		if len(p.Poke) == 3 && p.Poke[0] == i && p.Poke[1] < len(pad) {
+			pad[p.Poke[1]] = byte(p.Poke[2])
+		}
+		data = append(data, pad...)
 	}
 	if p.Trailing >= 0 {
 		n := p.TailLen
@@ -97,12 +166,12 @@ func c12Case(r *core.Run, menu []Stream, p C12Case) {
 	}
 	cs := core.MkCase("C12", "concat", p)
 	want, wantErr := c12Expect(menu, p)
-	out, err, proto, pan := xzDecode(data, 0, p.Single)
+	out, err, proto, pan := xzDecodeSrc(data, 0, p.Single, p.Src)
 	var names []string
 	for _, s := range p.Streams {
 		names = append(names, menu[s].Name)
 	}
-	desc := fmt.Sprintf("streams=%v lead=%d pads=%v trailing=%d single=%v", names, p.Lead, p.Pads, p.Trailing, p.Single)
+	desc := fmt.Sprintf("streams=%v lead=%d pads=%v trailing=%d single=%v poke=%v source-mode=%d", names, p.Lead, p.Pads, p.Trailing, p.Single, p.Poke, p.Src)
 	cls := errClass(err)
 	// site: what distinguishes the layout
 	site := fmt.Sprintf("n=%d single=%v", len(p.Streams), p.Single)
@@ -111,6 +180,8 @@ func c12Case(r *core.Run, menu []Stream, p C12Case) {
 		site += " leading-padding"
 	case p.Trailing >= 0:
 		site += " trailing-nonzero"
+	case len(p.Poke) == 3:
+		site += " nonzero-inside-padding"
 	default:
 		mis := false
 		for _, k := range p.Pads {
@@ -181,7 +252,7 @@ func c12Case(r *core.Run, menu []Stream, p C12Case) {
 
 func runC12(r *core.Run) {
 	menu := c12Menu()
-	r.Rule = "all lists of 1..3 streams over a menu of 6 (library-, reference- and liblzma-written; empty; 4 check types; multi-block) x padding: lists <=2: every length 0..16 between and after; lists of 3: {0,4,8} plus one misaligned; leading padding 1..8; trailing non-zero byte; x SingleStream on/off; oracle = 20-line reference semantics. states/transitions = stream-list automaton (start/between/error/done); non-trivial = distinct (layout class, outcome class, bytes, expectation)"
+	r.Rule = "all lists of 1..3 streams over a menu of 6 (library-, reference- and liblzma-written; empty; 4 check types; multi-block) x 4 source modes (bytes.Reader / last bytes with io.EOF / one byte per Read / both) x padding: lists <=2: every length 0..16 between and after; lists of 3: {0,4,8} plus one misaligned; leading padding 1..8; trailing non-zero bytes (lengths 1..11); a non-zero byte at every position of a 4/8/12-byte padding group; x SingleStream on/off; oracle = 20-line reference semantics. states/transitions = stream-list automaton (start/between/error/done); non-trivial = distinct (layout class, outcome class, bytes, expectation)"
 	var cases []C12Case
 	n := len(menu)
 	maxPad := 16
@@ -244,6 +315,30 @@ func runC12(r *core.Run) {
 					}
 				}
 			}
+		}
+	}
+	// a non-zero byte at every position of a 4/8/12-byte padding group, after the last stream and
+	// between two streams
+	for a := 0; a < n; a++ {
+		for _, pl := range []int{4, 8, 12} {
+			for j := 0; j < pl; j++ {
+				for _, v := range []int{1, 0xFD, 0xFF} {
+					for _, single := range []bool{false, true} {
+						cases = append(cases, C12Case{Streams: []int{a}, Pads: []int{pl}, Trailing: -1, Poke: []int{0, j, v}, Single: single})
+					}
+					cases = append(cases, C12Case{Streams: []int{a, 0}, Pads: []int{pl, 0}, Trailing: -1, Poke: []int{0, j, v}})
+					cases = append(cases, C12Case{Streams: []int{0, a}, Pads: []int{4, pl}, Trailing: -1, Poke: []int{1, j, v}})
+				}
+			}
+		}
+	}
+	// every layout with every source mode (the SingleStream probe and the padding reads see short
+	// reads and data delivered together with io.EOF)
+	base := cases
+	for mode := 1; mode <= 3; mode++ {
+		for _, c := range base {
+			c.Src = mode
+			cases = append(cases, c)
 		}
 	}
 	r.Extra("cases", len(cases))
